@@ -1050,6 +1050,12 @@ func c28ChangesGen(r *vh.Rand, tier string, n int) []c28Hist {
 			{bind("@/a/f", "x-snapd.kind=file"), bind("@/a/g", "x-snapd.kind=file"), {Name: b("unused"), Dir: b("@/a/s"), Type: b("none"), Opts: [][]byte{b("x-snapd.kind=symlink"), b("x-snapd.symlink=/x")}}},
 			{bind("@/a/g", "x-snapd.kind=file")}}},
 	}
+	// siblings whose names differ from the parent's by a byte below '/': only the trailing-slash sort key keeps the
+	// children of a changed /a next to it (a, a-x, a/b)
+	fixed = append(fixed, c28Hist{Dirs: []string{"a/b", "a-x", "a.d/c"}, Steps: [][]c28Ent{
+		{bind("@/a"), bind("@/a-x"), bind("@/a/b"), bind("@/a.d/c"), bind("@/a.d")},
+		{bind("@/a", "ro"), bind("@/a-x"), bind("@/a/b"), bind("@/a.d/c"), bind("@/a.d", "ro")},
+		{bind("@/a/b"), bind("@/a-x")}}})
 	for _, h := range fixed {
 		for k := range h.Steps {
 			hh := h
